@@ -63,7 +63,8 @@ def run_one(m, keep=False):
                 elif want:
                     rule = m.get("rule")
                     fl = [l for l in out.splitlines() if l.startswith("FINDING")]
-                    if rule and not any(rule in l for l in fl):
+                    # the named rule belongs to one property (its number is in the rule id); other listed checks only have to fire
+                    if rule and rule[1:3] == pid[1:3] and not any(rule in l for l in fl):
                         ok = False
                         detail.append("%s: fired but not rule %s: %s" % (pid, rule, fl[:2]))
                     else:
